@@ -300,8 +300,6 @@ package server
 // never has a packet larger than that maximum handled — the connection ends with reason 0x95 (Packet too large)
 // instead; a packet within the limit is never refused for its size.
 //@ spec func sizeOK(c *client, p packets.Packet) bool = !(c.version == 5 && c.opts.ServerMaxPacketSize != 0 && totalBytes(p) > c.opts.ServerMaxPacketSize)
-//@ func (*client).reAuthHandler trusted
-//@ requires client != nil
 //@ func (*client).readHandle
 //@ props C13
 //@ requires [C13] client != nil && client.opts != nil && client.in != nil
